@@ -164,10 +164,12 @@ def expected_calls():
 from .oracle import unesc
 
 
-def run(v, prop):
-    """adds violations to verdict v; returns the number of trace records compared"""
+def run(v, prop, traced=True):
+    """adds violations to verdict v; returns the number of trace records (traced) / caller-side values (untraced) compared.
+    traced=False: the same calls without any tracer - only what the caller receives is compared (C08)"""
+    src = SRC if traced else SRC.replace('Rec outer(1);', '').replace('g_inner = std::make_unique<Rec>(2)', '(void)0')
     try:
-        exe, _ = genprog.build_program('tracevals', {'tracevals.cpp': SRC})
+        exe, _ = genprog.build_program('tracevals' if traced else 'retvals', {'tracevals.cpp': src})
     except build.BuildError as ex:
         v.inconclusive.append('traced-values program does not build: %s' % str(ex)[-1500:])
         return 0
@@ -209,6 +211,18 @@ def run(v, prop):
             line, body = bylabel[lab]
             recs = [b for b in body if b.startswith('T ')]
             vals = [b for b in body if b.startswith('V ')]
+            if lab == 'sck' and [unesc(x) for x in vals[1:2]] != ['V keep kept']:
+                problems.append('round %d sck: the local named by LR_RETURN holds %r after the call, expected \'V keep kept\'' % (rnd, vals[1:2]))
+            if not traced:
+                nrec += 1
+                val = [unesc(x) for x in (vals[seen_thr:seen_thr + 1] if lab == 'thr' else vals[:1])]
+                if lab == 'thr':
+                    seen_thr += 1
+                if recs:
+                    problems.append('round %d %s: trace record without a tracer' % (rnd, lab))
+                if not val or val[0] != vline:
+                    problems.append('round %d %s: caller observed %r, expected %r' % (rnd, lab, val[:1], vline))
+                continue
             if lab == 'thr':
                 rec = recs[seen_thr:seen_thr + 1]
                 val = vals[seen_thr:seen_thr + 1]
@@ -246,6 +260,6 @@ def run(v, prop):
     if tail != ['S reports 0']:
         problems.append('violation reports during the scene: %r' % tail)
     if problems:
-        v.violation('tracevals|log', 'traced values scene: ' + '; '.join(problems[:6]),
+        v.violation('tracevals|log' if traced else 'retvals|log', ('traced values scene: ' if traced else 'class-type return values scene: ') + '; '.join(problems[:6]),
                     dict(engine='tracevals', problems=problems[:40], output=lines[:400]))
     return nrec
